@@ -2,7 +2,7 @@
    harness.  Verdict codes (shared by all Run_*.v): 0 agree, 1 violation (the
    specification is false of what the implementation did), 2 divergence
    (implementation <> model although the specification holds), 9 malformed
-   case.
+   case, 118 the case falls in known-finding class K18 ([k18_obs]).
 
    The specification, per faulty connection (property C18):
      (a) whatever the server sent back is nothing but complete, syntactically
@@ -27,14 +27,18 @@ Definition V_AGREE : N := 0.
 Definition V_VIOLATION : N := 1.
 Definition V_DIVERGE : N := 2.
 Definition V_MALFORMED : N := 9.
+Definition V_K18 : N := 118.
 
 Inductive endst :=
 | EClosed      (* the server closed: the client read EOF *)
 | EGone        (* the client left first (close, RST) or the transport was reset *)
 | ETimeout.    (* still open at the deadline *)
 
+(* [unread]: the generator built the request malformed ONLY in the framing of
+   its chunked body and addressed it to an endpoint that does not read the
+   body (class K18) *)
 Inductive fobs :=
-| F (malformed head h2 : bool) (script : option (list areq)) (mode : task_mode)
+| F (malformed head h2 unread : bool) (script : option (list areq)) (mode : task_mode)
     (ans : list N) (e : endst).
 
 Inductive c18case :=
@@ -95,11 +99,26 @@ Definition model_agrees (mode : task_mode) (script : list areq) (head : bool)
       list_eqb N.eqb obs sent && negb (is_timeout e)
   end.
 
+(* Known finding K18 (open): a request whose chunked body framing is invalid,
+   sent to an endpoint that never reads the body, is answered 2xx and the
+   connection is then closed.  The class: the generator's [unread] mark, and
+   the answer is nothing but complete, syntactically valid 2xx responses, at
+   least one, on a connection that did not stay open.  Inside the class the
+   model agrees with the code (Conn.k18_class, ConnProofs.k18_refuted). *)
+Definition k18_obs (malformed head h2 unread : bool) (ans : list N) (e : endst) : bool :=
+  malformed && unread && negb h2 && negb (is_timeout e)
+  && match parse_answer head true ans with
+     | AComplete sts =>
+         negb (is_nil sts) && forallb (fun s => (200 <=? s) && (s <? 300)) sts
+     | _ => false
+     end.
+
 Definition judge_fault (f : fobs) : N :=
   match f with
-  | F malformed head h2 script mode ans e =>
+  | F malformed head h2 unread script mode ans e =>
       let s := spec_answer malformed head h2 ans e in
-      if negb (s =? V_AGREE) then s
+      if (s =? V_VIOLATION) && k18_obs malformed head h2 unread ans e then V_K18
+      else if negb (s =? V_AGREE) then s
       else match script with
            | None => V_AGREE
            | Some sc => if model_agrees mode sc head ans e then V_AGREE else V_DIVERGE
@@ -111,13 +130,15 @@ Definition judge_fault (f : fobs) : N :=
 Definition health_areq : areq := AR true true RouteFound [] BNone (HOk 200).
 Definition health_expected (mode : task_mode) : N :=
   match respond mode health_areq with Resp s _ => s | ConnPanic => 0 end.
-Definition mode_of (f : fobs) : task_mode := match f with F _ _ _ _ m _ _ => m end.
+Definition mode_of (f : fobs) : task_mode := match f with F _ _ _ _ _ m _ _ => m end.
 
-(* worst verdict: a violation beats a malformed case beats a divergence *)
+(* worst verdict: a violation beats a malformed case beats a divergence beats
+   the known-finding class *)
 Definition worst (a b : N) : N :=
   if (a =? V_VIOLATION) || (b =? V_VIOLATION) then V_VIOLATION
   else if (a =? V_MALFORMED) || (b =? V_MALFORMED) then V_MALFORMED
   else if (a =? V_DIVERGE) || (b =? V_DIVERGE) then V_DIVERGE
+  else if (a =? V_K18) || (b =? V_K18) then V_K18
   else V_AGREE.
 
 Definition judge_health (mode : task_mode) (h : N) : N :=
